@@ -217,7 +217,7 @@ func (fv *FV) evalSpec(env *SpecEnv, e SExpr) Val {
 		if lo != "0" {
 			fv.unsupported("spec: slice with low bound")
 		}
-		return Val{T: fmt.Sprintf("(mksq (sq.arr %s) %s (sq.ref %s))", c.T, hi, c.T), S: c.S, Go: c.Go}
+		return Val{T: fmt.Sprintf("((as mksq %s) (sq.arr %s) %s (sq.ref %s))", c.S, c.T, hi, c.T), S: c.S, Go: c.Go}
 	case SCall:
 		return fv.specCall(env, x)
 	}
@@ -249,6 +249,22 @@ func (fv *FV) specUnify(a, b Val) (Val, Val) {
 }
 
 func (fv *FV) specIdent(env *SpecEnv, name string) Val {
+	// inside the body (loop invariants) a name denotes the variable's current
+	// value; parameters that the body reassigns differ from their entry value,
+	// which stays available as old(name)
+	if env.pos.IsValid() && env.pkg != nil && !env.inOld && env.bound >= 0 {
+		if _, isBound := env.names[name]; isBound || true {
+			if sc := env.pkg.Types.Scope().Innermost(env.pos); sc != nil {
+				if _, obj := sc.LookupParent(name, env.pos); obj != nil {
+					if v, ok := env.cur.vars[obj]; ok {
+						if bv, isB := env.names[name]; !isB || !strings.HasSuffix(bv.T, "!b") {
+							return v
+						}
+					}
+				}
+			}
+		}
+	}
 	if v, ok := env.names[name]; ok {
 		return v
 	}
@@ -535,6 +551,7 @@ func (fv *FV) specCall(env *SpecEnv, x SCall) Val {
 	}
 	// closure / func param applied in spec
 	if v, ok := env.names[name]; ok && v.Clos != nil {
+		fv.checkClosurePure(v.Clos, name)
 		var args []Val
 		for i := range x.Args {
 			args = append(args, arg(i))
@@ -547,22 +564,19 @@ func (fv *FV) specCall(env *SpecEnv, x SCall) Val {
 		}
 		return r[0]
 	}
-	if v, ok := env.names[name]; ok && v.S == "Any" {
+	if v, ok := env.names[name]; ok && v.S == "Any" && v.Go != nil {
 		// opaque function parameter applied in spec: uninterpreted application
-		var args []Val
-		var sorts []string
-		for i := range x.Args {
-			a := arg(i)
-			args = append(args, a)
-			sorts = append(sorts, a.S)
+		if sig, ok := v.Go.Underlying().(*types.Signature); ok && sig.Results().Len() == 1 {
+			var args []Val
+			for i := range x.Args {
+				a := arg(i)
+				if i < sig.Params().Len() {
+					a = fv.specConv(a, fv.sess.sortOf(sig.Params().At(i).Type()))
+				}
+				args = append(args, a)
+			}
+			return fv.applyUF(v, args, sig.Results().At(0).Type())
 		}
-		fn := "apply_" + sanitize(strings.Join(sorts, "_"))
-		fv.sess.decl("fn:"+fn, fmt.Sprintf("(declare-fun %s (Any %s) Bool)", fn, strings.Join(sorts, " ")))
-		var ts []string
-		for _, a := range args {
-			ts = append(ts, a.T)
-		}
-		return Val{T: fmt.Sprintf("(%s %s %s)", fn, v.T, strings.Join(ts, " ")), S: "Bool", Go: types.Typ[types.Bool]}
 	}
 	return fv.specPureCall(env, name, nil, x.Args)
 }
@@ -585,6 +599,9 @@ func (fv *FV) expandMacro(env *SpecEnv, m *Macro, args []SExpr) Val {
 	}
 	if m.Rec {
 		return fv.recFnApp(env, m, args)
+	}
+	if m.Opaque {
+		return fv.opaquePredApp(env, m, args)
 	}
 	if env.macroDepth > 20 {
 		fv.unsupported("spec: macro recursion %s (use recfn)", m.Name)
@@ -628,13 +645,10 @@ func (fv *FV) recFnApp(env *SpecEnv, m *Macro, args []SExpr) Val {
 		rt := menv.resolveType(m.Ret)
 		rs := fv.sess.sortOf(rt)
 		fv.w.recRet[name] = Val{S: rs, Go: rt}
-		// placeholder so the body can refer to itself
-		idx := len(fv.sess.decls)
-		fv.sess.decls = append(fv.sess.decls, "")
 		fv.pure++
 		body := fv.evalSpec(menv, m.Body)
 		fv.pure--
-		fv.sess.decls[idx] = fmt.Sprintf("(define-fun-rec %s (%s) %s %s)", name, strings.Join(ps, " "), rs, body.T)
+		fv.sess.decls = append(fv.sess.decls, fmt.Sprintf("(define-fun-rec %s (%s) %s %s)", name, strings.Join(ps, " "), rs, body.T))
 	}
 	var ts []string
 	for _, a := range avals {
@@ -726,4 +740,64 @@ func (fv *FV) pureApp(c *Contract, vals []Val, env *SpecEnv) Val {
 		fv.assumed["pure function axiom from contract: "+c.Key()] = true
 	}
 	return Val{T: fmt.Sprintf("(%s %s)", fn, strings.Join(ts, " ")), S: rs, Go: rt}
+}
+
+// checkClosurePure: a closure that instantiates `fn(...)` of a callee contract
+// must not assign anything that outlives the call.
+func (fv *FV) checkClosurePure(c *Closure, name string) {
+	if c.Lit == nil {
+		return
+	}
+	saved := fv.fn
+	fv.fn = &fnCtx{pkg: c.Pkg, sig: c.Pkg.TypesInfo.TypeOf(c.Lit).(*types.Signature)}
+	ms := fv.modifies(c.Lit.Body)
+	fv.fn = saved
+	for o := range ms.vars {
+		if o.Pos() < c.Lit.Pos() || o.Pos() > c.Lit.End() {
+			fv.unsupported("closure passed as %s assigns captured variable %s: the callee contract cannot be used (impure closure)", name, o.Name())
+		}
+	}
+	if len(ms.heap) > 0 || ms.heapAll {
+		fv.unsupported("closure passed as %s assigns heap state: the callee contract cannot be used (impure closure)", name)
+	}
+}
+
+// opaquePredApp: a predicate over values kept as an uninterpreted symbol with
+// a trigger-guarded definition, so that its applications can serve as
+// instantiation triggers (its body must not read the heap).
+func (fv *FV) opaquePredApp(env *SpecEnv, m *Macro, args []SExpr) Val {
+	name := "op_" + m.Name
+	var avals []Val
+	for i := range args {
+		avals = append(avals, fv.evalSpec(env, args[i]))
+	}
+	if !fv.sess.declSet["fn:"+name] {
+		fv.sess.declSet["fn:"+name] = true
+		menv := &SpecEnv{fv: fv, names: map[string]Val{}, cur: &State{pc: "true", vars: map[types.Object]Val{}, heap: map[string]Val{}}, pkg: fv.w.pkgOf(m.Pkg), tsub: env.tsub, bound: 1}
+		menv.old = menv.cur
+		if menv.pkg == nil {
+			menv.pkg = env.pkg
+		}
+		var ps, sorts, names []string
+		for _, p := range m.Params {
+			t := menv.resolveType(p.Type)
+			s := fv.sess.sortOf(t)
+			menv.names[p.Name] = Val{T: p.Name + "!o", S: s, Go: t}
+			ps = append(ps, fmt.Sprintf("(%s!o %s)", p.Name, s))
+			sorts = append(sorts, s)
+			names = append(names, p.Name+"!o")
+		}
+		fv.pure++
+		body := fv.evalSpecBool(menv, m.Body)
+		fv.pure--
+		app := fmt.Sprintf("(%s %s)", name, strings.Join(names, " "))
+		fv.sess.decls = append(fv.sess.decls,
+			fmt.Sprintf("(declare-fun %s (%s) Bool)", name, strings.Join(sorts, " ")),
+			fmt.Sprintf("(assert (forall (%s) (! (= %s %s) :pattern (%s))))", strings.Join(ps, " "), app, body, app))
+	}
+	var ts []string
+	for _, a := range avals {
+		ts = append(ts, a.T)
+	}
+	return Val{T: fmt.Sprintf("(%s %s)", name, strings.Join(ts, " ")), S: "Bool"}
 }
